@@ -4,10 +4,12 @@ import (
 	"encoding/json"
 	"fmt"
 	"github.com/internetarchive/Zeno/pkg/models"
+	"net/http"
 	"os"
 	"path/filepath"
 	"strconv"
 	"strings"
+	"sync"
 	"sync/atomic"
 	"syscall"
 	"time"
@@ -29,9 +31,10 @@ func init() { scenarios["c04"] = c04 }
 func c04site(org *origin.Server, n int, big bool, bigStatus int, bigAsset bool, needs map[string][]string) []Seed {
 	var seeds []Seed
 	if bigAsset {
-		// a page whose first asset takes the WARC writer a while (incompressible, 48 MiB) next to small ones requested later
+		// a page whose first asset takes the WARC writer a while (incompressible, 8 MiB, and its write is held for 1.5 s in
+		// the library's discard hook) next to small ones requested later
 		p := "/c04/ba"
-		org.Route(0, p+"/big.bin", origin.Resp{Status: 200, Headers: map[string]string{"Content-Type": "application/octet-stream"}, BodyGen: &origin.BodyGen{Kind: "binary", Size: 48 << 20, Seed: 5}})
+		org.Route(0, p+"/big.bin", origin.Resp{Status: 200, Headers: map[string]string{"Content-Type": "application/octet-stream", "X-Verif-Hold": "seed-bigasset"}, BodyGen: &origin.BodyGen{Kind: "binary", Size: 8 << 20, Seed: 5}})
 		assets := []string{p + "/big.bin"}
 		for j := 0; j < 3; j++ {
 			a := fmt.Sprintf("%s/small%d.png", p, j)
@@ -66,6 +69,8 @@ func c04site(org *origin.Server, n int, big bool, bigStatus int, bigAsset bool, 
 	return seeds
 }
 
+func fileExists(p string) bool { _, err := os.Stat(p); return err == nil }
+
 func c04(args []string) error {
 	if len(args) != 6 {
 		return fmt.Errorf("usage: c04 <dir> <trace> run1|run2 <mode> <n> <workers>")
@@ -89,6 +94,9 @@ func c04(args []string) error {
 	}
 	run, err := NewRunAt(dir, args[1], 2, addrs, func(c *config.Config) {
 		c.WorkersCount, c.MaxConcurrentAssets = w, 2
+		if strings.HasPrefix(mode, "bigasset+") || fileExists(filepath.Join(dir, "bigasset.flag")) {
+			c.MaxConcurrentAssets = 4 // all assets of the page are requested at once
+		}
 		c.MaxRetry = 0
 		if flaky {
 			c.MaxRetry = 1 // the first attempt of the flaky URL is cut, the retry succeeds
@@ -137,6 +145,20 @@ func c04(args []string) error {
 		seeds = append([]Seed{{ID: "seed-flaky", Value: run.org.URL(0, "/c04/flaky.bin")}}, seeds...)
 	}
 	run.tr.Emit(map[string]any{"ev": "c04.phase", "phase": phase, "mode": mode, "n": n})
+	var heldOnce sync.Once
+	run.extra = func(point string, a ...any) {
+		// library-side discard call (no request attached) of a response marked X-Verif-Hold: its write waits a while
+		if point != "arch.discard" {
+			return
+		}
+		if resp, ok := a[0].(*http.Response); ok && resp.Request == nil && resp.Header.Get("X-Verif-Hold") != "" {
+			heldOnce.Do(func() {
+				run.tr.Emit(map[string]any{"ev": "hold.begin", "seed": resp.Header.Get("X-Verif-Hold")})
+				time.Sleep(1500 * time.Millisecond)
+				run.tr.Emit(map[string]any{"ev": "hold.end", "seed": resp.Header.Get("X-Verif-Hold")})
+			})
+		}
+	}
 	if phase == "run1" { // the page requisites of each seed (all of them answer 200): captures a finished seed must have
 		for id, urls := range needs {
 			run.tr.Emit(map[string]any{"ev": "site.assets", "id": id, "urls": urls})
